@@ -524,7 +524,7 @@ class G:
                 if P("p_blank_row", 0.05):
                     out.append({"k": "x", "c": {}})
                 continue
-            nm = self.name("g" if kind == "g" else "r")
+            nm = self.name("s" if self.P.get("neutral_container_names") else ("g" if kind == "g" else "r"))
             c = {"name": nm}
             table_list = None
             if P("_", 0.85):
